@@ -195,7 +195,7 @@ def main():
             'guard': 'BITSTRING_VERIF',
             'enable': 'checks import bitstring from /repo (or $VERIF_REPO_ROOT) with BITSTRING_VERIF=1 in the environment',
             'baseline_off_cmd': 'cd /repo && env -u BITSTRING_VERIF /venv/bin/python -m pytest -ra -q -p no:cacheprovider --timeout=900 --continue-on-collection-errors',
-            'source_commits': [],
+            'source_commits': ['8ce2e4762e684219213d6d265bcf94c2529b94cf'],
             'add_only': True,
         },
         'engines': [{
